@@ -93,23 +93,16 @@ Proof.
     destruct (mem (conn s) (lost s)); [destruct w|]; vw; reflexivity.
 Qed.
 
-(* reply_step has three outcomes *)
-Lemma reply_step_cases s k :
-  reply_step s k = s \/ reply_step s k = set_cpc s k (CDone ROk) \/
-  exists i, reply_step s k = set_cpc (set_rpc s i (RAtRead (status_ s))) k (CDone RClosed).
-Proof.
-  unfold reply_step. destruct (nth_error (calls s) k) as [cl|]; [|auto].
-  destruct (c_pc cl); auto.
-  destruct (c_ready cl && negb (mem c (lost s))); [|auto].
-  generalize 0. induction (readers s) as [|[c' p] l IH]; intros i; [auto|].
-  destruct p; auto.
-  destruct (Nat.eqb c' c); [|auto].
-  destruct (goon_read (status_ s)); eauto.
-Qed.
+Lemma view_consume s k : view_of (consume s k) = view_of s.
+Proof. unfold consume. destruct (nth_error (calls s) k); reflexivity. Qed.
 
 Lemma reply_step_view s k : view_of (reply_step s k) = view_of s.
 Proof.
-  destruct (reply_step_cases s k) as [E|[E|[i E]]]; rewrite E; vw; reflexivity.
+  unfold reply_step. destruct (nth_error (calls s) k) as [cl|]; [|reflexivity].
+  destruct (c_on cl) as [c|]; [|reflexivity].
+  destruct (c_ready cl && negb (mem c (lost s))); [|reflexivity].
+  destruct (reading_index (readers s) c 0) as [i|]; [|reflexivity].
+  destruct (goon_read (status_ s)); destruct (c_pc cl); vw; rewrite ?view_consume; reflexivity.
 Qed.
 
 Lemma acquire_view s o :
@@ -465,7 +458,7 @@ Qed.
 
 Definition cancelled (cl : call) : call :=
   match c_pc cl with
-  | CAwait _ => mkCall (c_hold cl) (c_ready cl) (CDone RClosed)
+  | CAwait _ => mkCall (c_hold cl) (c_ready cl) (c_on cl) (CDone RClosed)
   | _ => cl
   end.
 
@@ -541,7 +534,7 @@ Proof. intros H. unfold acquire. apply nth_error_None in H. rewrite H. destruct 
 Definition s_stuck : st :=
   mkSt 2 SPassiveClosing 2 3 true [2; 1; 0; 0] IdUser [] 0 0 [(true, VA); (true, VA)] 2
        [(1, true); (1, true)] [(0, RDone); (1, RDone); (2, RDone)]
-       [mkCall false true (CDone ROk); mkCall false true (CDone ROk)] None [] VA false.
+       [mkCall false true None (CDone ROk); mkCall false true None (CDone ROk)] None [] VA false.
 
 Lemma w_stuck_state : run (init 2 true [] VA) w_stuck = s_stuck.
 Proof. vm_compute. reflexivity. Qed.
@@ -580,7 +573,7 @@ Definition w_exhausted : list ev :=
 Lemma w_exhausted_lemma :
   let s := run (init 1 true [VJ; VU] VU) w_exhausted in
   status_ s = SRedialFailed /\ rounds s = [(2, false)] /\ notified s = 0 /\ dischooks s = 0 /\
-  quiescent s = true /\ nth_error (calls s) 0 = Some (mkCall false false (CDone RClosed)).
+  quiescent s = true /\ nth_error (calls s) 0 = Some (mkCall false false None (CDone RClosed)).
 Proof. vm_compute. repeat split; reflexivity. Qed.
 
 Lemma w_exhausted_indexed_lemma :
@@ -602,8 +595,8 @@ Lemma w_overlap_lemma :
   let s1 := run (init 2 true [] VA) (firstn 12 w_overlap) in
   let s := run (init 2 true [] VA) w_overlap in
   (status_ s1 = SOk /\ mem (conn s1) (lost s1) = false /\ index s1 = [IdUser] /\
-   nth_error (calls s1) 0 = Some (mkCall true false (CAwait (conn s1)))) /\
+   nth_error (calls s1) 0 = Some (mkCall true false (Some (conn s1)) (CAwait (conn s1)))) /\
   (status_ s = SOk /\ health s = true /\ conn s = conn s1 /\ mem (conn s) (lost s) = true /\
    index s = [] /\ okrounds s = 1 /\
-   nth_error (calls s) 0 = Some (mkCall true false (CDone RClosed))).
+   nth_error (calls s) 0 = Some (mkCall true false (Some (conn s1)) (CDone RClosed))).
 Proof. vm_compute. repeat split; reflexivity. Qed.
